@@ -29,11 +29,9 @@ def find_code(module_code, qualname, firstline):
     return best
 
 
-_module_code = {}
-
-
 def code_of(func):
     mod = func.module
+    _module_code = mod.__dict__.setdefault('_code_cache', {})
     if mod.name not in _module_code:
         _module_code[mod.name] = compile(mod.src, mod.relpath, 'exec', dont_inherit=True)
     # qualname inside the module
